@@ -72,15 +72,38 @@ class _Walk:
         self.tree = tree
         self.viol: list[tuple[str, str]] = []
         self.stats = collections.Counter()
-        # `if not isinstance(l_X, Namespace): raise` guards emitted by visit_Assign
-        self.ns_guarded: set[str] = set()
+        # `if not isinstance(l_X, Namespace): raise` guards emitted by visit_Assign / visit_AssignBlock:
+        # an item store on a template value is accepted only when the guard for that very name stands
+        # immediately before the assignment statement in the same statement list
+        self.guarded_stores: set[int] = set()
         for n in ast.walk(tree):
-            if isinstance(n, ast.If) and isinstance(n.test, ast.UnaryOp) and isinstance(n.test.op, ast.Not):
-                c = n.test.operand
-                if (isinstance(c, ast.Call) and dotted(c.func) == "isinstance" and len(c.args) == 2
-                        and isinstance(c.args[0], ast.Name) and dotted(c.args[1]) == "Namespace"
-                        and n.body and isinstance(n.body[0], ast.Raise)):
-                    self.ns_guarded.add(c.args[0].id)
+            for field in ("body", "orelse", "finalbody"):
+                stmts = getattr(n, field, None)
+                if not isinstance(stmts, list):
+                    continue
+                pending: set[str] = set()
+                for st in stmts:
+                    g = self._guard_name(st)
+                    if g is not None:
+                        pending.add(g)
+                        continue
+                    if isinstance(st, ast.Assign) and pending:
+                        for tgt in st.targets:
+                            for sub in ast.walk(tgt):
+                                if (isinstance(sub, ast.Subscript) and isinstance(sub.value, ast.Name)
+                                        and sub.value.id in pending):
+                                    self.guarded_stores.add(id(sub))
+                    pending = set()
+
+    @staticmethod
+    def _guard_name(st):
+        if isinstance(st, ast.If) and isinstance(st.test, ast.UnaryOp) and isinstance(st.test.op, ast.Not) and not st.orelse:
+            c = st.test.operand
+            if (isinstance(c, ast.Call) and dotted(c.func) == "isinstance" and len(c.args) == 2
+                    and isinstance(c.args[0], ast.Name) and dotted(c.args[1]) == "Namespace"
+                    and len(st.body) == 1 and isinstance(st.body[0], ast.Raise)):
+                return c.args[0].id
+        return None
 
     def tainted(self, n) -> bool:
         if isinstance(n, ast.Name):
@@ -122,9 +145,8 @@ class _Walk:
                     if isinstance(n.slice, ast.Slice) or (
                             isinstance(n.slice, ast.Call) and dotted(n.slice.func) == "slice"):
                         self.stats["slice_exempt"] += 1  # documented: slices bypass getitem
-                    elif (isinstance(n.ctx, ast.Store) and isinstance(n.value, ast.Name)
-                          and n.value.id in self.ns_guarded and isinstance(n.slice, ast.Constant)
-                          and isinstance(n.slice.value, str)):
+                    elif (isinstance(n.ctx, ast.Store) and id(n) in self.guarded_stores
+                          and isinstance(n.slice, ast.Constant) and isinstance(n.slice.value, str)):
                         self.stats["namespace_store"] += 1  # {% set ns.a = .. %} after isinstance(Namespace) guard
                     else:
                         self.viol.append(("subscript", ast.unparse(n)[:160]))
@@ -139,6 +161,13 @@ class _Walk:
                 elif d in ("getattr", "setattr", "delattr", "hasattr"):
                     if n.args and self.tainted(n.args[0]):
                         self.viol.append(("builtin-" + d, ast.unparse(n)[:160]))
+                    elif (len(n.args) >= 2 and isinstance(n.args[1], ast.Constant) and isinstance(n.args[1].value, str)
+                          and n.args[1].value.startswith("_")):
+                        # {% from x import name %} compiles to a bare getattr on the module object:
+                        # it must never be emitted for a private name
+                        self.viol.append(("getattr-private", ast.unparse(n)[:160]))
+                    elif len(n.args) >= 2 and not isinstance(n.args[1], ast.Constant):
+                        self.viol.append(("getattr-dynamic", ast.unparse(n)[:160]))
                 elif isinstance(n.func, ast.Name) and (TMP_NAME.match(n.func.id) or n.func.id in RUNTIME_NAMES):
                     pass
                 elif self.tainted(n.func):
